@@ -4,4 +4,11 @@ EXTENDS Rpc, Json
 AllDone == (\A c \in Callers : pc[c] = "returned") /\ inbox = <<>>
 Emit == (~AllDone') \/ PrintT(ToJson([hist |-> hist', conn |-> conn', results |-> [c \in Callers |-> result'[c]], rids |-> [c \in Callers |-> rid'[c]],
                                       table |-> table', callers |-> Cardinality(Callers)]))
+\* a directed family of behaviours (Gen_Rpc_ghost4): caller 1 calls a node there is no connection to and is slow about it -- it is allocated
+\* first, but fails only after caller 2 has been allocated and sent; callers 3 and 4 start after that failure; caller 2 is answered last
+Pos(e) == LET is == {i \in 1..Len(hist) : hist[i] = e} IN IF is = {} THEN 0 ELSE CHOOSE i \in is : \A j \in is : i <= j
+GhostDirected == /\ (Pos(<<"alloc", 2>>) > 0 => Pos(<<"alloc", 1>>) > 0)
+                 /\ (Pos(<<"insert", 1>>) > 0 => Pos(<<"send", 2>>) > 0)
+                 /\ \A c \in {3, 4} : Pos(<<"alloc", c>>) > 0 => Pos(<<"send", 1>>) > 0
+                 /\ \A i \in 1..Len(hist) : hist[i][1] = "reply" => (hist[i][2] = 2 /\ Pos(<<"insert", 3>>) > 0 /\ Pos(<<"insert", 4>>) > 0 /\ Pos(<<"insert", 3>>) < i /\ Pos(<<"insert", 4>>) < i)
 =============================================================================
